@@ -4,7 +4,7 @@ LEVEL = {"C15": "fault_enumeration"}
 ENGINES = [
     {"name": "E4-schedx", "path": "e4 (+ sched, vsync, vgotomic)", "serves_properties": ["C20", "C04", "C06", "C08", "C09", "C15"],
      "kind_free_text": "cooperative scheduler + DFS over choice sequences with iterative preemption bounding on the real code rebuilt with a go build -overlay that rewrites \"sync\" to verif/vsync and gotomic to verif/vgotomic; separate free-running -race pass"},
-    {"name": "E5-inpackage", "path": "e5", "serves_properties": ["C14", "C16", "C17"],
+    {"name": "E5-inpackage", "path": "e5", "serves_properties": ["C14", "C15", "C16", "C17"],
      "kind_free_text": "exhaustive enumeration inside a package of the repository that cannot be imported (cmd/wasp, package main): the harness test file is compiled into that package through a go test -overlay, /repo itself is not touched"},
     {"name": "E3-crashx", "path": "e3", "serves_properties": ["C15"],
      "kind_free_text": "crash-point enumeration with real child processes killed by SIGKILL at verif-tag hook points in wasp/messages/store.go, restarted on the same directory"},
@@ -29,6 +29,8 @@ PHASES = {
     ],
     "C15": [
         {"pkg": "e3", "test": "TestC15Crash", "phase": "C15/crash-points"},
+        # the log as cmd/wasp wires it, behind a subscriber that stops reading (real process, loopback sockets)
+        {"pkg": "e5", "test": "TestC15RealProcess", "phase": "C15/real-process-lagging-consumer"},
         # "handed to the delivery scheduler": the real SchedulePublishes + writer queue behind the consumer, with the
         # writer stalled by a subscriber that stops reading (same paths as C02's stalled-subscriber phase)
         {"pkg": "e2", "test": "TestC02Stalled", "phase": "C02/stalled-subscriber"},
